@@ -79,7 +79,9 @@ class PerAntennaPowerConstraint(BaseConstraint):
         """
         # Calculate current power per antenna (all dimensions except batch and antenna)
         spatial_dims = tuple(range(2, len(x.shape)))
-        antenna_power = torch.mean(torch.abs(x) ** 2, dim=spatial_dims, keepdim=True)
+        sample_power = torch.abs(x) ** 2
+        # Without trailing dimensions every entry is one antenna's whole signal (an empty `dim` would average everything)
+        antenna_power = torch.mean(sample_power, dim=spatial_dims, keepdim=True) if spatial_dims else sample_power
 
         # Determine target power
         if self.power_budget is not None:
